@@ -250,7 +250,7 @@ func (ctx *EvalCtx) eval(e ast.Expr) CV {
 		if !ok {
 			ctx.fail("dereference of non-pointer")
 		}
-		return CV{ex.load(ctx.state(), v.t, pt.Elem()), pt.Elem()}
+		return CV{ctx.loadedInContract(ex.load(ctx.state(), v.t, pt.Elem()), pt.Elem()), pt.Elem()}
 	case *ast.BinaryExpr:
 		return ctx.binary(x)
 	case *ast.SelectorExpr:
